@@ -186,6 +186,7 @@ func GenDef(r *rand.Rand, p *Profile) Cfg {
 				o.Aliases = append(o.Aliases, T(a))
 			}
 		}
+		o.AliasSplit = len(o.Aliases) > 1 && chance(r, 0.4)
 		switch kind {
 		case "bool":
 			o.DefB = chance(r, 0.3)
@@ -223,6 +224,9 @@ func GenDef(r *rand.Rand, p *Profile) Cfg {
 		}
 		if chance(r, p.Sugg) && kind != "bool" && kind != "incr" {
 			o.Sugg = Ts("dev", "devel", "prod")
+			if chance(r, 0.3) {
+				o.Sugg = Ts("dev=", "key=", "prod") // key= suggestions
+			}
 		}
 		if chance(r, p.Sugg/2) && kind != "bool" {
 			o.SuggFn = Ts("dyn1", "devfn", "prod")
@@ -435,7 +439,7 @@ func GenCompLine(r *rand.Rand, p *Profile, c *Cfg) []string {
 		rs := []rune(k)
 		last = "--" + string(rs[:r.Intn(len(rs)+1)])
 		if chance(r, 0.3) {
-			last = "--" + k + "=" + pick(r, []string{"", "d", "de", "p", "v", "x"})
+			last = "--" + k + "=" + pick(r, []string{"", "d", "de", "p", "v", "x", "k", "dev", "dev=", "pr"})
 		}
 	case 4, 5:
 		cands := []string{"help", "h", "sarg", "run", "l", "dy"}
